@@ -18,9 +18,22 @@ def step (st : C01.St) (line : String) : C01.St × String :=
   let (st', model) := C01.step st inp
   if impl.startsWith "panic" || impl.startsWith "HANG" then (st', "FAIL " ++ impl) else
   if (words inp).head? == some "finish" then
+    -- (C10) at most 2K closer peers of one response enter the lookup
+    let evs := (tokenOf impl "events").splitOn ";"
+    let tooMany := evs.any fun e =>
+      match e.splitOn ":" with
+      | ["upd", _, "q", l] => (l.splitOn ".").length > 2 * st.cfg.K
+      | _ => false
+    if tooMany then (st', s!"FAIL more than 2K = {2 * st.cfg.K} closer peers of one response entered the lookup") else
     if tokenOf impl "asked" == tokenOf model "asked" && tokenOf impl "peers" != tokenOf model "peers" then
       (st', s!"FAIL result {tokenOf impl "peers"} is not the K nearest learned non-failed peers {tokenOf model "peers"}")
-    else (st', "ok")
+    else
+      -- (C02) a result reported completed: the request was sent at least once to every returned peer
+      let peers := splitList (tokenOf impl "peers")
+      let asked := splitList (tokenOf impl "asked")
+      if tokenOf impl "completed" == "1" && peers.any (fun p => !asked.contains p) then
+        (st', s!"FAIL completed, but a returned peer was never sent the request: peers={tokenOf impl "peers"} asked={tokenOf impl "asked"}")
+      else (st', "ok")
   else (st', "ok")
 
 end KadDHT.Driver.C01v
